@@ -20,7 +20,7 @@ TECHNIQUE = (
 RULE = (
     "editions: every key of EDITIONS_LOOKUP (all edition names and variations) rendered as 'Foo v. Bar, 12 R 345'; those "
     "with >=2 candidate editions x years {none, start-1, start, end, end+1 of each edition the string can denote (exact or variation), every 10th year (quick) / every year (thorough) from 1600, 1599, 1600, this year, "
-    "next year, next year+1, 0000, 9999} x 9 year positions (two of them cite the same volume/page a second time without a year); docs: all concatenations of <=k fragments of A2. "
+    "next year, next year+1, 0000, 9999} x 10 year positions (one followed by a later mention of a party) (two of them cite the same volume/page a second time without a year); docs: all concatenations of <=k fragments of A2. "
     "distinct = distinct text; non-trivial = a resource citation with >=2 candidate editions or a year was returned."
 )
 ASSUMPTIONS = [
@@ -32,7 +32,7 @@ ASSUMPTIONS = [
 A2 = c17.A2
 ALPHABETS = {"A2": A2}
 DEPTH = {"quick": {"AC": 3, "HS": 2, "REF": 2}, "thorough": {"AC": 4, "HS": 3, "REF": 2}}
-POSITIONS = ["post", "court", "bracket", "pre", "range", "parallel-after", "parallel-first", "twice-after", "twice-before"]
+POSITIONS = ["post", "court", "bracket", "pre", "range", "parallel-after", "parallel-first", "twice-after", "twice-before", "ref-after"]
 _REPS = {}
 _TIER = {"t": "quick"}
 
@@ -68,6 +68,8 @@ def render(rep, ys, pos):
         return f"Foo v. Bar, {core}, 1 U.S. 1 ({ys})."
     if pos == "twice-after":  # the same citation again without a year (equal by value, ambiguous on its own)
         return f"Foo v. Bar, {core} ({ys}). See {core}."
+    if pos == "ref-after":  # a later 'Name at N' mention of a party (a reference citation, which is never a resource citation)
+        return f"In Foo v. Bar, {core} ({ys}), the court held x. As explained in Bar at 5, the rule is narrow."
     if pos == "twice-before":
         return f"See {core}. Foo v. Bar, {core} ({ys})."
     raise KeyError(pos)
@@ -152,6 +154,7 @@ def edition_cases(sh):
     for rep in dd.sliced(iter(_REPS["all"]), sh["r"], sh["n"]):
         base = f"Foo v. Bar, 12 {rep} 345."
         yield {"part": sh["part"], "tok": tok, "text": base}
+        yield {"part": sh["part"], "tok": tok, "text": f"In Foo v. Bar, 12 {rep} 345, the court held x. As explained in Bar at 5, the rule is narrow."}
         probe = [c for c in get_citations(base, tokenizer=tk) if isinstance(c, M.ResourceCitation) and c.matched_text() == f"12 {rep} 345"]
         if len(probe) != 1:
             continue
